@@ -19,6 +19,6 @@ Separate Extraction
   Vm.run Vm.next Vm.rnext Vm.push_data Vm.pop_data Vm.set_rlog Vm.set_limits Vm.set_meter Vm.set_var Vm.get_var
   Vm.set_out Vm.data_depth Vm.is_running Vm.dict_entry
   Words.native_fn Words.w_open_bitstr Words.R_OUTPUT
-  Build.eval Build.compile Struct.seval_source
+  Build.eval Build.compile Struct.seval_source Struct.parse_source Struct.layout_program
   Store.pool_step Store.pool_view
   Boot.boot Boot.fops_with F64.flocq_fops F64c.f64_of_int F64c.f64_to_int F64c.f64_round F64c.f32_to_f64 F64c.f64_to_f32.
